@@ -13,6 +13,7 @@ import tempfile
 from vf import common, shard, boot
 
 PROP = "C10"
+FIRST_OUTPUT_NAME = "circuit.r1cs"     # taken by a directory in the "first-prove-fails" script variant
 RULE = ("one program = one traced computation (generated programs over the full grammar, plus 'hostile' straight-line field "
         "programs with negative values, values >= p, values wider than 256 bits, zero coefficients, empty linear combinations, no "
         "public values, no constraints) whose files are decoded and compared with the in-memory trace; non-trivial = files were "
@@ -26,7 +27,7 @@ def main():
     R = common.Run(PROP, "translation_validation", RULE)
     for si, j in enumerate(jobs):
         # every number of public values from 0 to 130 once (with a few private values and constraints), spread over the shards
-        j["sizes"] = [[npub, (npub * 7 + 3) % 5, (npub * 3) % 4] for npub in range(si, 131, len(jobs))]
+        j["sizes"] = [[npub, (npub * 7 + 3) % 5, (npub * 3) % 3] for npub in range(si, 131, len(jobs))]
     boot.spread_pyflags(jobs)
     for job, res, err in shard.run_jobs("vf.checks.C10", "worker", jobs, timeout=3600, nproc=16):
         if err:
@@ -236,18 +237,38 @@ def worker(job):
     # a slice as real scripts: the at-exit path writes the files; the script dumps its in-memory trace just before exit
     for k in range(job["scripts"]):
         src, inputs = realrun.hostile_program(rnd, p)
-        wd = tempfile.mkdtemp(prefix="c10s-", dir=home)
+        wd = wd_top = tempfile.mkdtemp(prefix="c10s-", dir=home)
         try:
+            # variants of the same script: it changes directory after importing the library (files belong where the script
+            # is when it ends); its first explicit prove() fails because an output name is taken by a directory, the script
+            # removes the obstacle and the run ends normally.  (A standard error that refuses writes is NOT a variant: the
+            # writers report progress there, a failing report aborts them - an environment fault the property does not cover.)
+            variant = ["plain", "chdir", "first-prove-fails"][(int(job["seed"].rsplit("/", 1)[1]) + k + len(job["seed"])) % 3]
+            extra = {"plain": "", "chdir": "import os\nos.makedirs('sub')\nos.chdir('sub')\n",
+                     "first-prove-fails": ("import os, shutil\nos.makedirs(FIRSTOUT)\ntry:\n    _rt0 = __import__('pysnark.runtime').runtime\n    _rt0.backend.prove()\n"
+                                           "except Exception:\n    pass\nshutil.rmtree(FIRSTOUT)\n")}[variant]
             script = ("import json, sys\nsys.set_int_max_str_digits(0)\nfrom pysnark.runtime import *\nfrom pysnark.boolean import *\nI = %r\n%s\n"
-                      "import pysnark.runtime as _rt\n_b = _rt.backend\n"
+                      "import pysnark.runtime as _rt\n_b = _rt.backend\n" + extra.replace("FIRSTOUT", repr(FIRST_OUTPUT_NAME)) +
                       "json.dump(dict(p=_b.get_modulus(), pubvals=[int(v) for v in _b.pubvals], privvals=[int(v) for v in _b.privvals],\n"
                       "    constraints=[[sorted(x.lc.items()) for x in c] for c in _b.constraints]), open('trace.json', 'w'))\n") % (inputs, src)
             open(os.path.join(wd, "prog.py"), "w").write(script)
-            pr = subprocess.run([boot.PY] + boot.pyflags() + ["prog.py"], cwd=wd, env=boot.child_env({"PYSNARK_BACKEND": "snarkjs"}),
-                                stdout=subprocess.PIPE, stderr=subprocess.PIPE, timeout=120)
-            if pr.returncode != 0 or not os.path.exists(os.path.join(wd, "trace.json")):
+            errdev = open("/dev/full", "w") if (variant == "stderr-full" and os.path.exists("/dev/full")) else subprocess.PIPE
+            try:
+                pr = subprocess.run([boot.PY] + boot.pyflags() + ["prog.py"], cwd=wd, env=boot.child_env({"PYSNARK_BACKEND": "snarkjs"}),
+                                    stdout=subprocess.PIPE, stderr=errdev, timeout=120)
+            finally:
+                if errdev is not subprocess.PIPE:
+                    errdev.close()
+            R.count("script_variant:" + variant)
+            root = os.path.join(wd, "sub") if variant == "chdir" else wd
+            if (pr.returncode != 0 and variant != "stderr-full") or not os.path.exists(os.path.join(root, "trace.json")):
                 R.count("script_raised")
                 continue
+            if variant == "chdir":
+                stray = [fn for fn in os.listdir(wd) if fn.endswith((".r1cs", ".wtns", ".zkif"))]
+                if stray:
+                    R.violation("files-in-import-time-directory", "the script changed directory after importing the library; %s appeared in the directory of the import" % stray, src=src, inputs=inputs)
+                wd = root
             import sys
             sys.set_int_max_str_digits(0)
             tr = json.load(open(os.path.join(wd, "trace.json")))
@@ -257,7 +278,7 @@ def worker(job):
             R.count("scripts_validated")
             R.case(cell="script|at-exit", key=("script", src, tuple(inputs)))
         finally:
-            shutil.rmtree(wd, ignore_errors=True)
+            shutil.rmtree(wd_top, ignore_errors=True)
     return R.export()
 
 
